@@ -76,18 +76,21 @@ stage = [
         dict(lit='dhp::smr::instance()', to='vx_instance()', count=1, why='same')]),
 ]
 
+RS = ['src/hp.cpp', 'src/init.cpp', 'src/thread_data.cpp', 'src/hp_thread_local.cpp', 'src/dhp.cpp', 'src/topology_linux.cpp', 'src/urcu_gp.cpp', 'src/urcu_sh.cpp']
+
+
 def grp(name, harness, props, expect, fns, tier='quick', unwind={'quick': 6, 'thorough': 9}, timeout={'quick': 1200, 'thorough': 7200}, two=False):
     if two:
         unwind = {'quick': 9, 'thorough': 13}
-    return dict(defines=(['VX_TWO_RECS'] if two else []), name=name, harness=harness, enforce=[], dfcc=False, functions=fns, expect=expect, props=props, timeout=timeout, tier=tier, unwind=unwind,
-                defines_tier={'quick': ['VX_NREC=2', 'VX_H=1', 'VX_GCAP=2', 'VX_RCAP=2'], 'thorough': ['VX_NREC=2', 'VX_H=2', 'VX_GCAP=2', 'VX_RCAP=2', 'VX_WG_MAX=5', 'VX_MAXRETIRE=5']},
+    return dict(replay=dict(driver='replay.cpp', case=name, vars=[], repo_sources=RS), defines=(['VX_TWO_RECS'] if two else []), name=name, harness=harness, enforce=[], dfcc=False, functions=fns, expect=expect, props=props, timeout=timeout, tier=tier, unwind=unwind,
+                defines_tier={'quick': ['VX_NREC=2', 'VX_H=1', 'VX_GCAP=2', 'VX_RCAP=2', 'VX_NO_HELP_SCAN'], 'thorough': ['VX_NREC=2', 'VX_H=2', 'VX_GCAP=2', 'VX_RCAP=2', 'VX_WG_MAX=5', 'VX_MAXRETIRE=5']},
                 bounded='quick: 2 thread records x (1 initial guard + extension blocks of 2) x <= 5 retired pointers in blocks of 2; thorough: 3 records x 2 initial guards; PARAMETER ABSTRACTION: extension block 16 -> 2, retired block 256 -> 2')
 
 
 SCAN = ['dhp::smr::scan', 'copy_hazards', 'retire_data', 'retired_array::push/repush/extend', 'thread_hp_storage::alloc/extend/init', 'hp_allocator::alloc', 'retired_allocator::alloc', 'guard_block::first', 'retired_block::first/last']
 GROUPS = [
     grp('scan_c02', 'h_scan_c02', ['C02'], [r'C02\.no_free_while_guarded', r'C02\.kept_once'], SCAN),
-    grp('scan_c03_free', 'h_scan_c03_free', ['C03'], [r'C03\.freed_when_unprotected', r'C03\.at_most_once', r'C03\.no_invention'], SCAN),
+    grp('scan_c03_free', 'h_scan_c03_free', ['C03'], [r'C03\.freed_when_unprotected', r'C03\.at_most_once', r'C03\.no_invention'], SCAN, tier='thorough'),
     grp('scan_c03_keep', 'h_scan_c03_keep', ['C03'], [r'C03\.kept_when_protected'], SCAN, tier='thorough'),
     grp('retire', 'h_retire', ['C03', 'C02'], [r'C03\.retire_keeps_room', r'C03\.retire_conserves'], ['cds::gc::DHP::retire(T*, void(*)(void*))'] + SCAN, tier='thorough'),
     grp('help_scan', 'h_help_scan', ['C03'], [r'C03\.help_scan_conserves', r'C03\.help_scan_empties_source'], ['dhp::smr::help_scan', 'retired_array::fini'] + SCAN, tier='thorough', two=True),
@@ -107,5 +110,31 @@ UNIT = dict(
     ],
     cxx=['shim.cpp'], c=['contracts.c'],
     cxxflags=['-Dconstexpr=', '-Dnoexcept=', '-Dexplicit=', '-Dprivate=public', '-Dprotected=public'],
+    sabotage=[
+        dict(name='scan_ignores_extension_blocks', quick=True, props=['C02'], target='scan', lit='copy_hazards( plist, block->first(), defaults::c_extended_guard_block_size );', to=';', count=1,
+             groups=['scan_c02'], expect_fail=r'C02\.no_free_while_guarded'),
+        dict(name='scan_stops_after_first_extension_block', props=['C02'], target='scan', lit='block = block->next_block_ )', to='block = nullptr )', count=1,
+             groups=['scan_c02'], expect_fail=r'C02\.no_free_while_guarded', tier='thorough'),
+        dict(name='copy_hazards_drops_last_cell', props=['C02'], target='copy_hazards', lit='for ( guard const* end = arr + size; arr != end; ++arr ) {', to='for ( guard const* end = arr + size - 1; arr != end; ++arr ) {', count=1,
+             groups=['scan_c02'], expect_fail=r'C02\.no_free_while_guarded'),
+        dict(name='dtor_leaves_retired', quick=True, props=['C03'], target='dtor', lit='p != retired.current_cell_; ++p ) {', to='p != retired.current_cell_ && p + 1 != retired.current_cell_; ++p ) {', count=1, groups=['dtor'], expect_fail=r'C03\.dtor_disposes_all'),
+        dict(name='scan_forgets_repush', props=['C03'], target='retire_data', lit='stg.repush( p );', to=';', count=1, groups=['scan_c03_keep'], expect_fail=r'C03\.kept_when_protected'),
+    ],
+    trusted_base=[
+        'CBMC 6.11 C++ front end (partial)',
+        'SC atomic<T> stub: memory orders and thread_data::sync() fences have no effect',
+        'std::sort / std::binary_search replaced by reference implementations in /verif/stubs/algorithm; std::vector replaced by a capacity-checked array (hp_vector)',
+        'shell block types: guard_block/retired_block trailing arrays (reinterpret_cast<T*>(this + 1) over one raw allocation) are explicit arrays in separately named objects; first() rewrites pinned with counts',
+        'FreeListImpl (free_list_.get/put) replaced by a shell free list (the lock-free free list itself is not under contract)',
+        'thread-record list is stable during a pass; the witness record stays attached during the pass',
+    ],
+    assumptions=[
+        'BOUNDED: see groups[].loop_closure; PARAMETER ABSTRACTION: extension guard block 16 -> VX_GCAP=2, retired block 256 -> VX_RCAP=2 (code is generic in both constants)',
+        'witness-slot rely: every guard slot except one returns an arbitrary value on every load; one slot (initial array or any extension block) holds the protected pointer for the whole call',
+        'sequential consistency; weak-memory effects are invisible',
+        'quick tier: help_scan inside free_thread_data/scan paths stubbed out (VX_NO_HELP_SCAN); its own group runs in the thorough tier',
+    ],
+    dropped=['private/protected -> public', 'noexcept/constexpr/explicit', 'deleted constructors', 'make_retired_ptr (lambda)', 'default member initialisers -> ctor-body stores', 'thread_local TLS pointer -> harness world',
+             'raw allocation + placement new of blocks -> shell allocation', 'auto -> explicit types'],
     groups=GROUPS,
 )
